@@ -2649,3 +2649,155 @@ def c19_client_outcome_code(env):
 
 
 REGISTRY.setdefault("C19", []).append(c19_client_outcome_code)
+
+
+# ---- C17: which idle time-out value reaches the transport, and which one is advertised -----------
+
+
+def c17_idle_timeout_plumbing(env):
+    out = []
+
+    def run_closure(pat, arg):
+        cfn = env.fn(pat)
+        sub = env.executor()
+
+        def m_millis(ex_, st, callee, args, argvals, dty):
+            a = mir.Agg("Duration")
+            a["ms"] = argvals[0]
+            return a
+
+        sub.models = [(r"^Duration::from_millis$", m_millis)]
+        ps = [p for p in sub.run(cfn, {"_1": mir.Agg("closure"), "_2": arg}) if p.end == "return"]
+        if len(ps) != 1:
+            raise mir.Unsupported(f"closure {pat} has {len(ps)} returning paths")
+        return ps[0], sub.assumptions
+
+    def mk_map_model(closure_pat, extra):
+        def m_map(ex_, st, callee, args, argvals, dty):
+            x = argvals[0]
+            if not isinstance(x, mir.Agg):
+                raise mir.Unsupported("Option::map on an untracked value")
+            if "#d" not in x:
+                ex_.new_discr(st, x, "Option")
+            if not (isinstance(x.get(("as", "Some")), mir.Agg) and 0 in x[("as", "Some")]):
+                sm0 = mir.Agg("Some")
+                sm0[0] = z3.BitVec(f"opaque.option.payload#{ex_.ctx.n}", 32)
+                ex_.ctx.n += 1
+                x[("as", "Some")] = sm0
+            r = mir.Agg("Option")
+            r["#d"] = x["#d"]
+            sm = mir.Agg("Some")
+            p, assum = run_closure(closure_pat, x[("as", "Some")][0])
+            extra.extend(assum)
+            for (dsc, okc, c) in p.obligations:
+                extra_obl.append((dsc, okc, c))
+            sm[0] = p.ret
+            r[("as", "Some")] = sm
+            return r
+
+        return m_map
+
+    extra_obl = []
+    # `Builder` names three different structs in the crate: take the connection builder's own layout
+    bstructs, _ = mir.parse_layouts(["/repo/fe2o3-amqp/src/connection/builder.rs"])
+    if "idle_time_out" not in bstructs.get("Builder", []):
+        raise mir.Unsupported("connection::builder::Builder.idle_time_out not found")
+    F_ITO = bstructs["Builder"].index("idle_time_out")
+    T = z3.BitVec("configured.idle_time_out.ms", 32)
+    has = z3.BitVec("configured.idle_time_out.is_some", 64)
+
+    def opt_T():
+        a = mir.Agg("idle_time_out")
+        a["#d"] = has
+        sm = mir.Agg("Some")
+        sm[0] = T
+        a[("as", "Some")] = sm
+        return a
+
+    def replay(m):
+        cmds = ["idle 400 280", "idle 400 0"]
+        return cmds, (lambda outs: any(js.get("panic") or not js["ok"] for js in outs))
+
+    for side, pat, clos, holder in (
+        ("connector", r"^connection::builder::<impl at [^>]*>::connect_amqp_with_framed::\{closure#0\}$", r"^connection::builder::<impl at [^>]*>::connect_amqp_with_framed::\{closure#0\}::\{closure#0\}$", "builder"),
+    ):
+        o = Obligation(f"c17_{side}_enforces_the_configured_idle_timeout", "C17")
+        o.desc = f"{side}: the idle time-out handed to the transport (after which silence tears the connection down) is exactly the configured value in milliseconds -- present iff configured, not the halved value that is advertised to the peer -- so the connection is not torn down while frames keep arriving within the configured time"
+        fn = env.fn(pat)
+        o.functions = [fn.name, env.fn(clos).name]
+        o.bounds = ["coroutine body from its initial state up to the header exchange; every 32-bit idle time-out, configured or not"]
+        o.assumes = ["Transport::negotiate_amqp_header/bind_to_framed_codec arm a timer with the Duration they are given (zero = none) and Transport::poll_next resets it on every frame (tokio timers are outside solver reach)"]
+        ex = env.executor(max_visits=3)
+        extra = []
+        ex.models = [(r"Option::<u32>::map::<Duration, ", mk_map_model(clos, extra))]
+        B = mir.Agg("builder")
+        B[F_ITO] = opt_T()
+        pin, cor = coroutine_start(env, "@self", {0: B})
+        paths = ex.run(fn, {"_1": pin, "@cor": cor, "@self": mir.Agg("unused")})
+        hyp = ex.assumptions + extra + [z3.ULE(has, 1)]
+        n = 0
+        for i, p in enumerate(paths):
+            calls = [c for c in p.calls if re.search(r"::negotiate_amqp_header$", c[0])]
+            if not calls:
+                continue
+            n += 1
+            arg = calls[0][1][3]
+            if not (isinstance(arg, mir.Agg) and "#d" in arg):
+                o.prove(f"path{i}:the-time-out-argument-is-derived-from-the-configuration", hyp + p.cond, z3.BoolVal(False), replay=replay)
+                continue
+            o.prove(f"path{i}:armed-iff-configured", hyp + p.cond, arg["#d"] == has, replay=replay)
+            d = arg.get(("as", "Some"))
+            ms = d[0].get("ms") if isinstance(d, mir.Agg) and isinstance(d.get(0), mir.Agg) else None
+            if ms is None:
+                o.prove(f"path{i}:the-time-out-is-the-configured-one", hyp + p.cond + [has == 1], z3.BoolVal(False), replay=replay)
+            else:
+                o.prove(f"path{i}:the-time-out-is-the-configured-one", hyp + p.cond + [has == 1], ms == z3.ZeroExt(32, T), replay=replay)
+        o.cover("the header exchange is reached", [z3.BoolVal(n > 0)])
+        out.append(o)
+
+    # what is advertised: half of it
+    o = Obligation("c17_advertised_idle_timeout_is_half", "C17")
+    o.desc = "Open::from(Builder): the idle-time-out advertised to the peer is half the configured one (AMQP 2.4.5: advertise half the actual threshold), absent iff not configured"
+    fn = env.fn(r"^connection::builder::<impl at [^>]*>::from$", sig=r"-> fe2o3_amqp_types::performatives::Open")
+    clos = r"^connection::builder::<impl at [^>]*>::from::\{closure#0\}$"
+    o.functions = [fn.name, env.fn(clos).name]
+    o.bounds = ["every 32-bit value"]
+    ex = env.executor(max_visits=3)
+    extra = []
+
+    def m_map_u32(ex_, st, callee, args, argvals, dty):
+        x = argvals[0]
+        r = mir.Agg("Option")
+        r["#d"] = x["#d"]
+        sm = mir.Agg("Some")
+        p, assum = run_closure(clos, x[("as", "Some")][0])
+        extra.extend(assum)
+        sm[0] = p.ret
+        r[("as", "Some")] = sm
+        return r
+
+    ex.models = [(r"Option::<u32>::map::<u32, ", m_map_u32)]
+    B = mir.Agg("builder")
+    B[F_ITO] = opt_T()
+    paths = ex.run(fn, {"_1": B})
+    hyp = ex.assumptions + extra + [z3.ULE(has, 1)]
+    n = 0
+    f_ito = env.fidx("Open", "idle_time_out")
+    for i, p in enumerate(paths):
+        if p.end != "return" or not isinstance(p.ret, mir.Agg):
+            continue
+        n += 1
+        adv = p.ret.get(f_ito)
+        if not (isinstance(adv, mir.Agg) and "#d" in adv):
+            o.prove(f"path{i}:advertised-value-derived-from-the-configuration", hyp + p.cond, z3.BoolVal(False), replay=replay)
+            continue
+        o.prove(f"path{i}:advertised-iff-configured", hyp + p.cond, adv["#d"] == has, replay=replay)
+        v = adv.get(("as", "Some"))
+        v = v[0] if isinstance(v, mir.Agg) and 0 in v else None
+        o.prove(f"path{i}:advertised-is-half", hyp + p.cond + [has == 1], (v == z3.LShR(T, 1)) if v is not None and not isinstance(v, mir.Agg) else z3.BoolVal(False), replay=replay)
+    o.cover("paths", [z3.BoolVal(n > 0)])
+    out.append(o)
+    return out
+
+
+REGISTRY.setdefault("C17", []).append(c17_idle_timeout_plumbing)
